@@ -33,8 +33,9 @@ def assocSet {α : Type} : List (Key × α) → Key → α → List (Key × α)
   | [], q, x => [(q, x)]
   | (k, v) :: r, q, x => if k = q then (k, x) :: r else (k, v) :: assocSet r q x
 
-def assocErase {α : Type} (l : List (Key × α)) (q : Key) : List (Key × α) :=
-  l.filter (fun e => e.1 ≠ q)
+def assocErase {α : Type} : List (Key × α) → Key → List (Key × α)
+  | [], _ => []
+  | (k, v) :: r, q => if k = q then assocErase r q else (k, v) :: assocErase r q
 
 /-! ## decoded variables -/
 
@@ -389,30 +390,35 @@ def fileLoop (g : Guards) (req : Req) : St → Nat → List Part → St × Exit
 def nextOk (req : Req) (st : St) (p : Part) : Bool :=
   p.fault != .next && st.off + p.hdr ≤ req.cfg.budget
 
-/-- everything in `Do` before the deferred calls run -/
-def body (g : Guards) (req : Req) : St × Exit :=
-  let st : St := {}
-  if req.contentLength > req.cfg.maxUp then (st, .tooLarge) else
-  if !req.boundaryOk then (st, .badMultipart) else
-  match req.parts with
+/-- second form field: `map` -/
+def mapStage (g : Guards) (req : Req) (st : St) : List Part → St × Exit
+  | [] => (st, .secondNotMap)
+  | p1 :: files =>
+    if !(nextOk req st p1) || p1.name != "map".toList then (st, .secondNotMap) else
+    let st := { st with off := st.off + p1.hdr }
+    if st.off + p1.size ≤ req.cfg.budget then
+      match req.map with
+      | .err => (st, .mapDecode)
+      | .ok m => fileLoop g req { st with off := st.off + p1.size, pending := m } 2 files
+    else (st, .mapDecode)
+
+/-- first form field: `operations` -/
+def opsStage (g : Guards) (req : Req) (st : St) : List Part → St × Exit
   | [] => (st, .firstNotOps)
   | p0 :: rest =>
     if !(nextOk req st p0) || p0.name != "operations".toList then (st, .firstNotOps) else
     let st := { st with off := st.off + p0.hdr }
-    match (if st.off + p0.size ≤ req.cfg.budget then req.ops else .err) with
-    | .err => (st, .opsDecode)
-    | .ok vars =>
-      let st := { st with off := st.off + p0.size, vars := vars }
-      match rest with
-      | [] => (st, .secondNotMap)
-      | p1 :: files =>
-        if !(nextOk req st p1) || p1.name != "map".toList then (st, .secondNotMap) else
-        let st := { st with off := st.off + p1.hdr }
-        match (if st.off + p1.size ≤ req.cfg.budget then req.map else .err) with
-        | .err => (st, .mapDecode)
-        | .ok m =>
-          let st := { st with off := st.off + p1.size, pending := m }
-          fileLoop g req st 2 files
+    if st.off + p0.size ≤ req.cfg.budget then
+      match req.ops with
+      | .err => (st, .opsDecode)
+      | .ok vars => mapStage g req { st with off := st.off + p0.size, vars := vars } rest
+    else (st, .opsDecode)
+
+/-- everything in `Do` before the deferred calls run -/
+def body (g : Guards) (req : Req) : St × Exit :=
+  if req.contentLength > req.cfg.maxUp then ({}, .tooLarge) else
+  if !req.boundaryOk then ({}, .badMultipart) else
+  opsStage g req {} req.parts
 
 structure Res where
   exit : Exit
@@ -422,6 +428,23 @@ structure Res where
 def run (g : Guards) (req : Req) : Res :=
   let (st, e) := body g req
   ⟨e, st, runDefers st⟩
+
+/-! ## Spec side of the upload delivery -/
+
+/-- the (map path, reader id) pairs in the order the readers were created -/
+def assignments (st : St) : List (List Char × Nat) :=
+  st.readers.reverse.map (fun r => (r.path, r.id))
+
+/-- placing the uploads one after the other, every placement succeeding -/
+def applyPaths (g : Guards) : UV → List (List Char × Nat) → Option UV
+  | v, [] => some v
+  | v, (p, id) :: r =>
+    match addUpload g v p (.upload id) with
+    | .ok v' => applyPaths g v' r
+    | _ => none
+
+/-- two positions neither of which lies inside the other -/
+def Indep (p q : List Seg) : Prop := ¬ p <+: q ∧ ¬ q <+: p
 
 /-- HTTP status written by `Do` for each exit (`none`: decided by the executor) -/
 def Exit.status : Exit → Option Nat
